@@ -38,7 +38,9 @@ func (wb *WriteBuffer) Add(entry Entry) bool {
 	wb.entries = append(wb.entries, entry)
 	wb.currentSize += entry.Size()
 
-	return wb.currentSize >= wb.maxSize
+	// The block header stores the entry count in 16 bits: the block has to be flushed
+	// when the count reaches that limit, whatever the configured block size is.
+	return wb.currentSize >= wb.maxSize || len(wb.entries) >= MaxEntriesPerBlock
 }
 
 // ShouldFlush returns true if the buffer has reached its maximum size
